@@ -193,6 +193,7 @@ def objective_job(a):
     bads = []
     err = Errors(sp)
     hard = Hardness(max_fes=16, n_runs=2)
+    other = Hardness(max_fes=16, n_runs=3)
     both = ErrorsAndHardness(sp, max_fes=16, n_runs=2)
     cnt = 0
     e0 = err.evaluate(tmpl)
@@ -237,6 +238,22 @@ def objective_job(a):
                 bads.append(("Hardness|differs from a fresh objective", key,
                              rows_t, [], np.asarray(inst).tolist(),
                              repr((vals["Hardness"], fresh))))
+            # a second objective with another number of runs is alive and
+            # used in between: the first one must not notice
+            alt = C.make_instance(W, H, np.asarray(inst).tolist(),
+                                  name="zz")
+            other.evaluate(alt)     # (the other one moves to a new name)
+            w1 = other.evaluate(inst)
+            v4 = hard.evaluate(inst)
+            hard.evaluate(alt)
+            hard.evaluate(inst)
+            w2 = other.evaluate(inst)
+            cnt += 6
+            if v4 != vals["Hardness"] or w1 != w2:
+                bads.append(("Hardness|value changes when a second Hardness "
+                             "objective (other n_runs) is used in between",
+                             key, rows_t, [], np.asarray(inst).tolist(),
+                             repr((vals["Hardness"], v4, w1, w2))))
         prev = inst
         if len(bads) > 5:
             break
